@@ -8,6 +8,7 @@ import enum
 import glob
 import os
 import signal
+import stat
 import time
 
 from ._common import MACOS
@@ -201,7 +202,12 @@ def get_terminal_map():
     for name in ls:
         assert name not in ret, name
         try:
-            ret[os.stat(name).st_rdev] = name
+            st = os.stat(name)
         except FileNotFoundError:
-            pass
+            continue
+        # Only character devices are terminals: st_rdev of a regular
+        # file or directory is 0, which is also the tty_nr of a process
+        # with no controlling terminal.
+        if stat.S_ISCHR(st.st_mode):
+            ret[st.st_rdev] = name
     return ret
